@@ -620,6 +620,7 @@ func (c *runA) crashInStabilise(b int) (reached bool) {
 		// no candidate record in the commit: Flush is not called, the crash point does not exist
 		c.markStable(b)
 		count("crash_point_absent(no-candidate-record-in-commit)", 1)
+		c.tags = append(c.tags, "crash-point-absent")
 		return false
 	}
 	if !strings.Contains(err.Error(), "no such file") {
@@ -631,8 +632,15 @@ func (c *runA) crashInStabilise(b int) (reached bool) {
 	latest, lerr := c.db.LoadLatestBlock()
 	must(lerr)
 	if latest.Hash() != blk.hash {
-		// the pointer did not move: the crash hit before SetCurrentBlock (not the point this harness models)
-		panic("harness: stable pointer did not move before the injected crash")
+		// The stable pointer had not moved yet when the process died (a tree that rewrites context.data
+		// before it moves the pointer). The block's accounts are in the write-ahead file already, so the
+		// store now presents them — and filters its persisted candidates by them — as the state of the
+		// OLD stable block: accounts ahead of the pointer are C08's subject (DESIGN section 9 item 9), and
+		// neither the account view nor the startup list can be judged against that block. Counted, not
+		// judged, not expanded.
+		count("crash_before_stable_pointer_moved(accounts-ahead-of-pointer:C08,not-judged)", 1)
+		c.tags = append(c.tags, "crash-before-pointer-move")
+		return false
 	}
 	count("crash_after_stable_pointer_moved", 1)
 	c.markStable(b)
@@ -666,18 +674,12 @@ func (c *runA) step(ev string) bool {
 		case "ns":
 			return c.stabilise(nb.idx)
 		case "nc":
-			if !c.crashInStabilise(nb.idx) {
-				c.tags = append(c.tags, "crash-point-absent")
-				return false
-			}
+			return c.crashInStabilise(nb.idx)
 		}
 	case "st":
 		return c.stabilise(c.num(f[1]))
 	case "cs":
-		if !c.crashInStabilise(c.num(f[1])) {
-			c.tags = append(c.tags, "crash-point-absent")
-			return false
-		}
+		return c.crashInStabilise(c.num(f[1]))
 	case "rs":
 		c.restart()
 	default:
